@@ -1,7 +1,7 @@
 (* Correspondence cases of C05. *)
 From stdpp Require Import gmap.
 From Coq Require Import ZArith List.
-From Emitter Require Import Lib.Base Model.Lww Model.Cluster.
+From Emitter Require Import Lib.Base Model.Lww Model.Cluster Model.ClusterSched.
 Import ListNotations.
 Local Open Scope N_scope.
 
@@ -76,4 +76,15 @@ Definition first_diff (c : case) : option (N * N) :=
          | None => go w' r (i + 1)
          end
        end) (world0 ns) evs 0
+  end.
+
+(* the hypotheses of the quiescence theorem (Properties/C05.v: C05_quiescent_routing_ok,
+   C05_quiescent_delivery_exactly_once), evaluated on the schedule the harness replayed on the real
+   brokers: distinct broker names, events on brokers of the cluster, strictly increasing clock readings
+   per broker, no pair left separated, nothing left on any link *)
+Definition within (c : case) : bool :=
+  match c with
+  | CCluster ns sched evs pubs =>
+    let es := map fst evs in
+    nodupb ns && sched_okb ns ghost0 es && all_upb ns (grun es) && quiet (run ns es)
   end.
